@@ -295,6 +295,8 @@ def check_vector(ctx, rng, st, flags):
                     ctx.violation('limit-c0-not-flag0', 'confidence 0 is not equivalent to flag 0',
                                   dict(wit, slot=int(j), model=name, with_limit=(a, s, ch), flag0=(a2, s2, ch2)))
                     break
+                if nontrivial and np.isfinite(ch) and np.isfinite(ch2) and ch > ch2 + (1e-9 * abs(ch2) + 1e-12):
+                    ctx.regime('limit-penalised:3d')          # (the amount is decided by the numeric reference ref3d)
                 if nontrivial and np.isfinite(ch) and np.isfinite(ch2) and ch < ch2 - (1e-9 * abs(ch2) + 1e-12):
                     ctx.violation('limit-lowers-chi2', 'adding a limit lowered a model chi^2',
                                   dict(wit, slot=int(j), model=name, chi2_with=ch, chi2_flag0=ch2))
@@ -372,7 +374,7 @@ def run(ctx):
                '3-D mode: penalties are decided by the numeric reference of C02 (the penalty can move the best distance)')
     ctx.require_events('fit:base', 'pair:ignored-hostile', 'pair:band-removed', 'pair:limit-vs-flag0',
                        'pair:confidence0-vs-flag0', 'pair:flag1-as-flag4', 'reference-oracle', 'pair:live-source-reflagged')
-    ctx.require_regimes('limit-violated:c=1', 'limit-violated:0<c<1', 'limit-satisfied', 'n=1', 'n=4')
+    ctx.require_regimes('limit-violated:c=1', 'limit-violated:0<c<1', 'limit-satisfied', 'limit-penalised:3d', 'n=1', 'n=4')
     sets = [Setup(ctx, rng, '2d'), Setup(ctx, rng, '3d')]
     vs = vectors(ctx)
     reps = 1 if ctx.quick else 4
